@@ -105,6 +105,10 @@ type refWorld struct {
 	decis   map[*crl.CRLRevocationChecker]string
 	gate    map[*crl.CRLRevocationChecker]chan struct{} // a pass that runs parks here (inside the refresh mutex) until released
 	parking bool
+	// shared: both instances name the same crl_urls entry (half of the worlds)
+	shared      bool
+	sharedBody  []byte
+	sharedEmpty []byte
 }
 
 // tickRun is one in-flight updateCRLs(false) call of an instance.
@@ -113,6 +117,33 @@ type tickRun struct {
 }
 
 func (rw *refWorld) publish(in *refInstance, ok bool, listLeaf bool) {
+	if rw.shared {
+		// both instances are configured with the SAME crl_urls entry. The CA revokes both leaves at once, and it does not re-issue
+		// for every fetch: what the second instance finds when its turn comes is the list the first one fetched already.
+		if ok && listLeaf {
+			if rw.sharedBody == nil {
+				in.number += 1000
+				rw.sharedBody = rw.ca.SimpleCRL(in.number, rw.inst["v1"].leaf.Cert.SerialNumber.Int64(), rw.inst["v2"].leaf.Cert.SerialNumber.Int64())
+			}
+			rw.org.SetBody(in.pathU, rw.sharedBody)
+		} else if ok {
+			if rw.sharedEmpty == nil {
+				in.number++
+				rw.sharedEmpty = rw.ca.SimpleCRL(in.number)
+			}
+			rw.org.SetBody(in.pathU, rw.sharedEmpty)
+		} else {
+			rw.org.SetBody(in.pathU, []byte("temporarily unavailable"))
+		}
+		in.number++
+		if ok {
+			// (the distribution point's own list names nobody: whether the leaf is rejected depends on the shared configured list)
+			rw.org.SetBody(in.pathD, rw.ca.SimpleCRL(in.number))
+		} else {
+			rw.org.SetBody(in.pathD, []byte("temporarily unavailable"))
+		}
+		return
+	}
 	in.number++
 	if !ok {
 		rw.org.SetBody(in.pathU, []byte("temporarily unavailable"))
@@ -131,6 +162,7 @@ func newRefWorld(seed int64) (*refWorld, error) {
 	rw := &refWorld{org: origin.New(), inst: map[string]*refInstance{}, decis: map[*crl.CRLRevocationChecker]string{}}
 	rw.ca = pki.NewCA(pki.CAOpts{Name: "Refresher CA", Serial: 90})
 	rw.gate = map[*crl.CRLRevocationChecker]chan struct{}{}
+	rw.shared = seed%2 == 1
 	world.SetHandler(func(site string, kv ...any) {
 		if (site == "crl.update.skip" || site == "crl.update.run") && len(kv) > 0 {
 			if ch, ok := kv[0].(*crl.CRLRevocationChecker); ok {
@@ -151,6 +183,9 @@ func newRefWorld(seed int64) (*refWorld, error) {
 	})
 	for i, name := range []string{"v1", "v2"} {
 		in := &refInstance{name: name, pathU: fmt.Sprintf("/%s/configured.crl", name), pathD: fmt.Sprintf("/%s/cdp.crl", name)}
+		if rw.shared {
+			in.pathU = "/shared/configured.crl"
+		}
 		in.leaf = rw.ca.Leaf(pki.LeafOpts{CN: "leaf " + name, Serial: big.NewInt(int64(500 + i)), CDP: []string{rw.org.URL + in.pathD}})
 		in.chain = pki.Chain(in.leaf.Cert, rw.ca)
 		rw.inst[name] = in
